@@ -45,6 +45,8 @@ MUTANTS = [
     M("s3-mdf-header", ["C08", "C09"], ["S3"], (("smpl_extract/alcohol/mdf.py"), "mdf_address = sector_address + MDF_SECTOR_HEADER_SIZE + offset", "mdf_address = sector_address + offset")),
     M("s3-filestream-identity", ["C08", "C01", "C07"], ["S3"], (U + "fat.py", "        sector  = self.sector_list[sector_index]\n", "        sector  = sector_index\n")),
     M("s4-skip-sector", ["C08", "C01"], ["S4"], (U + "sector.py", "            remaining_size -= self.sector_length\n            i += 1", "            remaining_size -= self.sector_length\n            i += 2")),
+    M("s4-for-form-tail-rereads", ["C08", "C07", "C01"], ["S4", "S4p"], (U + "sector.py", '        while remaining_size > self.sector_length:\n            result += self._read_sector(\n                initial_sector_index + i, \n                0, \n                self.sector_length\n            )\n            remaining_size -= self.sector_length\n            i += 1\n        \n        # read partial final sector\n        final_sector_index = initial_sector_index + i\n', '        num_middle_sectors = max(remaining_size - 1, 0) // self.sector_length\n        for i in range(1, num_middle_sectors + 1):\n            result += self._read_sector(\n                initial_sector_index + i, \n                0, \n                self.sector_length\n            )\n            remaining_size -= self.sector_length\n        \n        # read partial final sector\n        final_sector_index = initial_sector_index + i\n')),
+    M("s4-for-form-count-off", ["C08", "C07"], ["S4", "S4p"], (U + "sector.py", '        while remaining_size > self.sector_length:\n            result += self._read_sector(\n                initial_sector_index + i, \n                0, \n                self.sector_length\n            )\n            remaining_size -= self.sector_length\n            i += 1\n        \n        # read partial final sector\n        final_sector_index = initial_sector_index + i\n', '        num_middle_sectors = remaining_size // self.sector_length\n        for i in range(1, num_middle_sectors + 1):\n            result += self._read_sector(\n                initial_sector_index + i, \n                0, \n                self.sector_length\n            )\n            remaining_size -= self.sector_length\n        \n        # read partial final sector\n        final_sector_index = initial_sector_index + num_middle_sectors + 1\n')),
     M("s4-no-length-check", ["C08", "C15"], ["S4"], (U + "sector.py", "        if len(result) != size:\n            raise SectorReadError(f\"Wanted {size}, read {len(result)}.\")\n", "")),
     M("s4-zero-guard-weakened", ["C08"], ["S4"], (U + "sector.py", "        if size <= 0:\n            return bytes()", "        if size < 0:\n            return bytes()")),
     M("s4-first-piece-off", ["C08"], ["S4"], (U + "sector.py", "            initial_read_size = self.sector_length - initial_sector_offset", "            initial_read_size = self.sector_length - initial_sector_offset - 1")),
@@ -149,6 +151,7 @@ MUTANTS = [
 
 
 TWINS = [
+    T("tw-s4-for-form", ["C08", "C01", "C07", "C15", "C13"], (U + "sector.py", '        while remaining_size > self.sector_length:\n            result += self._read_sector(\n                initial_sector_index + i, \n                0, \n                self.sector_length\n            )\n            remaining_size -= self.sector_length\n            i += 1\n        \n        # read partial final sector\n        final_sector_index = initial_sector_index + i\n', '        num_middle_sectors = max(remaining_size - 1, 0) // self.sector_length\n        for i in range(1, num_middle_sectors + 1):\n            result += self._read_sector(\n                initial_sector_index + i, \n                0, \n                self.sector_length\n            )\n            remaining_size -= self.sector_length\n        \n        # read partial final sector\n        final_sector_index = initial_sector_index + num_middle_sectors + 1\n')),
     T("tw-getpath-augassign", ["C07", "C13", "C01", "C14"], (U + "fat.py", "            loop_cnt += 1\n", "            loop_cnt = loop_cnt + 1\n")),
     T("tw-getpath-rename", ["C07", "C13", "C01", "C14"], (U + "fat.py", "        loop_cnt = 0\n        while loop_cnt < self.size:", "        steps = 0\n        while steps < self.size:"),
       (U + "fat.py", "            loop_cnt += 1\n", "            steps += 1\n"), (U + "fat.py", "        if loop_cnt >= self.size:", "        if steps >= self.size:")),
